@@ -201,6 +201,9 @@ class Normal(Sampler):
 class Grid(Sampler):
     """Dummy sampler used for grid search"""
 
+    def __str__(self):
+        return "Grid"
+
     def sample(
         self,
         domain: Domain,
@@ -1144,8 +1147,30 @@ def to_dict(x: Domain) -> Dict[str, Any]:
     }
     sampler = x.get_sampler()
     if sampler is not None:
-        result.update({"sampler_cls": str(sampler), "sampler_kwargs": sampler.__dict__})
+        result.update(_sampler_to_dict(sampler))
     return result
+
+
+def _sampler_to_dict(sampler: Sampler) -> Dict[str, Any]:
+    if isinstance(sampler, Quantized):
+        # The sampler which is quantized is represented in the same way
+        sampler_kwargs = dict(_sampler_to_dict(sampler.get_sampler()), q=sampler.q)
+        return {"sampler_cls": "Quantized", "sampler_kwargs": sampler_kwargs}
+    else:
+        return {"sampler_cls": str(sampler), "sampler_kwargs": sampler.__dict__}
+
+
+def _sampler_from_dict(domain_cls, d: Dict[str, Any]) -> Sampler:
+    sampler_cls = d["sampler_cls"]
+    sampler_kwargs = d["sampler_kwargs"]
+    if sampler_cls == "Quantized":
+        return Quantized(
+            _sampler_from_dict(domain_cls, sampler_kwargs), sampler_kwargs["q"]
+        )
+    elif sampler_cls == "Grid":
+        return Grid()
+    else:
+        return getattr(domain_cls, "_" + sampler_cls)(**sampler_kwargs)
 
 
 def from_dict(d: Dict[str, Any]) -> Domain:
@@ -1157,10 +1182,7 @@ def from_dict(d: Dict[str, Any]) -> Domain:
     domain_kwargs = d["domain_kwargs"]
     domain = domain_cls(**domain_kwargs)
     if "sampler_cls" in d:
-        sampler_cls = getattr(domain_cls, "_" + d["sampler_cls"])
-        sampler_kwargs = d["sampler_kwargs"]
-        sampler = sampler_cls(**sampler_kwargs)
-        domain.set_sampler(sampler)
+        domain.set_sampler(_sampler_from_dict(domain_cls, d))
     return domain
 
 
